@@ -100,6 +100,7 @@ type SpecFile struct {
 	Assumes    []string          // free-text assumptions echoed into evidence
 	Axioms     []Clause
 	Lemmas     []Clause
+	Statics    []StaticClause
 	FuncTypes  map[string]*Contract
 	Order      []string
 	GhostMaps  map[string]*Decl
@@ -695,6 +696,14 @@ func (sf *SpecFile) ParseText(path, text string) error {
 			}
 			sf.Axioms = append(sf.Axioms, cl)
 			cur = nil
+		case "static":
+			// static label: expr [tags] -- a contract on declarations (constants, types, struct tags), decided without any code path
+			cl, err := parseClause(rest)
+			if err != nil {
+				return errf("%v", err)
+			}
+			sf.Statics = append(sf.Statics, StaticClause{Cl: cl, File: path})
+			cur = nil
 		case "lemma":
 			cl, err := parseClause(rest)
 			if err != nil {
@@ -920,4 +929,10 @@ func parseUpdate(s string) (*GhostUpdate, error) {
 	}
 	u.Val = v
 	return u, nil
+}
+
+// StaticClause is a contract on declarations; File selects the package whose scope resolves its names.
+type StaticClause struct {
+	Cl   Clause
+	File string
 }
